@@ -21,6 +21,7 @@
 (*          ClipKey = "deep" (history/MC_SchemaRel_clip_deep.cfg) compares *)
 (*          clips by deep equality: refuted on later-enriched copies of a  *)
 (*          clip (pairings copy_features / copy_rec_tag, project enr)      *)
+(*          OneSided = "reset" (history/MC_SchemaRel_one_sided_reset.cfg). *)
 (*          MatchGuard = "dict_only" (history/MC_SchemaRel_dict_only.cfg): *)
 (*          the null-match test skipped for Mapping types other than dict. *)
 (*          ClipCheck = "assert" with Optimised = TRUE                     *)
@@ -45,6 +46,7 @@ EXTENDS SchemaRel, TLC, Json
 CONSTANTS MaxLen,        \* all match sequences up to this length (pairing "same")
           SortedLen,     \* plus sorted sequences (multisets) of exactly this length (0 = none)
           NoForeignLen,  \* plus sorted sequences without foreign members of exactly this length (0 = none)
+          OneSided,      \* "kept" (the code) | "reset" (control: the AOEF loader resets the affinity of one-sided matches to 0)
           MatchGuard,    \* "any_mapping" (the code) | "dict_only" (control: the null-match test is skipped for non-dict mappings)
           ClipCheck,     \* "raise" (the code) | "assert" (control: the clip test is an assert statement)
           Optimised,     \* FALSE | TRUE: the interpreter runs with -O (assert statements compiled away)
@@ -124,7 +126,9 @@ InitCase ==
     \/ \E i \in DOMAIN ClipPoints, j \in DOMAIN ClipPoints, u \in 1..2, e \in Encs :
           (e = "int" => u = 1) /\ c = [kind |-> "clip", st |-> ClipPoints[i], en |-> ClipPoints[j], u |-> u, enc |-> e, mp |-> "dict"]
     \/ \E f \in DOMAIN Fields, v \in DOMAIN ScoreValues, e \in {"num", "str"} :
-          OptFieldOK(Fields[f], ScoreValues[v]) /\ c = [kind |-> "score", field |-> Fields[f], v |-> ScoreValues[v], enc |-> e]
+          OptFieldOK(Fields[f], ScoreValues[v]) /\
+          \E sd \in (IF Fields[f] \in {"Match.affinity", "Match.score"} THEN {"both", "source", "target"} ELSE {"both"}) :
+             c = [kind |-> "score", field |-> Fields[f], v |-> ScoreValues[v], enc |-> e, sides |-> sd]
 
 \* only the clip validator can tell the paths apart, so only clip cases are run once per path
 Init == /\ InitCase
@@ -211,9 +215,11 @@ ClipCrash == pc = "clip" /\ ClipOutcome = "TypeError" /\ Fail("E:TypeError")
 GeZero(v) == v \notin {"nan", "-eps"}
 LeOne(v)  == v \notin {"nan", "1+eps", "inf"}
 ScoreNone == pc = "score" /\ c.v = "none" /\ Goto("built") /\ k' = k
-ScoreLow  == pc = "score" /\ c.v # "none" /\ ~GeZero(c.v) /\ Fail("E:greater_than_equal")
-ScoreHigh == pc = "score" /\ c.v # "none" /\ GeZero(c.v) /\ ~LeOne(c.v) /\ Fail("E:less_than_equal")
-ScoreOk   == pc = "score" /\ c.v # "none" /\ GeZero(c.v) /\ LeOne(c.v) /\ Goto("built") /\ k' = k
+\* control "reset": on some path (AOEF) the number of a one-sided match never reaches the bound test
+Unseen == OneSided = "reset" /\ c.field = "Match.affinity" /\ c.sides # "both"
+ScoreLow  == pc = "score" /\ c.v # "none" /\ ~Unseen /\ ~GeZero(c.v) /\ Fail("E:greater_than_equal")
+ScoreHigh == pc = "score" /\ c.v # "none" /\ ~Unseen /\ GeZero(c.v) /\ ~LeOne(c.v) /\ Fail("E:less_than_equal")
+ScoreOk   == pc = "score" /\ c.v # "none" /\ (Unseen \/ (GeZero(c.v) /\ LeOne(c.v))) /\ Goto("built") /\ k' = k
 
 Next == \/ CeMatchOk \/ CeMatchNull \/ CeMatchesDone \/ CeClipsOk \/ CeClipsBad \/ CeDupT \/ CeNoDupT \/ CeDupS \/ CeNoDupS
         \/ CeMergedOk \/ CeMergedBad \/ CeSetTBad \/ CeSetTOk \/ CeSetSBad \/ CeSetSOk \/ MatchOk \/ MatchNull
